@@ -86,7 +86,9 @@ func coResume(L *LState) int {
 		th.Panic = panicWithoutTraceback
 	} else {
 		nargs := L.GetTop() - 1
+		base := th.reg.Top()
 		L.XMoveTo(th, nargs)
+		th.adjustYieldResults(base)
 	}
 	top := L.GetTop()
 	threadRun(th)
